@@ -36,6 +36,8 @@ THEOREMS = [
     "Nix.C18.C18_resumable_steps",
     "Nix.C18.C18_idempotent",
     "Nix.C18.C18_writable",
+    "Nix.C18.C18_content_partial",
+    "Nix.C18.C18_content_counterexample",
 ]
 ASSUMPTIONS = [
     "interruption points are those the property names: before a task and between individual property / dimension "
@@ -561,6 +563,43 @@ def impl_history(ctx, base, ks, tag):
     return init, out
 
 
+def impl_stale(ctx, base, k, tag):
+    """collect_tasks twice up front, process the first list (interrupted before step k / completely), then the
+    stale second list completely (nixio.cmd.upgrade.main does this for a file named twice under two spellings)"""
+    _, U = _nix()
+    path = ctx.tmpfile("s-%s.nix" % tag)
+    shutil.copy(base, path)
+    runs = Runs()
+    ta = U.collect_tasks(path)[0]
+    tb = U.collect_tasks(path)[0]
+    out = []
+    for run, tasks, kk in ((1, ta, k), (2, tb, None)):
+        exc = None
+        with instrumented(run, kk, runs):
+            try:
+                with contextlib.redirect_stdout(io.StringIO()):
+                    U.process_tasks(path, tasks)
+            except Exception as e:
+                exc = e
+        out.append({"file": abstract(path, runs), "err": errname(exc)})
+    os.unlink(path)
+    return out
+
+
+def compare_stale(model, impl):
+    if "ok" not in model:
+        return "model: %s" % json.dumps(model)[:200]
+    for i, (a, b) in enumerate(zip(model["ok"], impl)):
+        if a["err"] != b["err"]:
+            return "list %d: error model=%s impl=%s" % (i + 1, a["err"], b["err"])
+        ca, cb = canon_state(a["file"]), canon_state(b["file"])
+        for key in ("version", "id", "other", "arrays", "props"):
+            if ca[key] != cb[key]:
+                return "list %d: state differs in %s: model=%s impl=%s" % (
+                    i + 1, key, json.dumps(ca[key], sort_keys=True)[:400], json.dumps(cb[key], sort_keys=True)[:400])
+    return None
+
+
 # ---------------------------------------------------------------------------------------
 # generators
 
@@ -827,10 +866,21 @@ def run_cases(ctx, cases):
             for ks in kss:
                 hist_cases.append(["history", c["lib"], i, ks])
                 owner.append(idx)
+            for k in ([None] + ([ctx.rng.randrange(n)] if n else []) if n else []):
+                hist_cases.append(["stale", c["lib"], i, k])
+                owner.append(idx)
         outs = core.run_driver(PROP, hist_cases)
         view_cases, view_owner = [], []
         for j, (hc, mo) in enumerate(zip(hist_cases, outs)):
             idx = owner[j]
+            if hc[0] == "stale":
+                d = compare_stale(mo, impl_stale(ctx, files[idx], hc[3], "%d-%d" % (idx, j)))
+                res[idx][0] += 1
+                res[idx][2]["states"] += 2
+                res[idx][2]["stale"] = res[idx][2].get("stale", 0) + 1
+                if d:
+                    res[idx][1].append("stale task list, first list cut at %s: %s" % (json.dumps(hc[3]), d))
+                continue
             _, impl = impl_history(ctx, files[idx], hc[3], "%d-%d" % (idx, j))
             d = compare_history(mo, impl)
             res[idx][0] += 1
@@ -975,7 +1025,7 @@ def uuid_cases(ctx):
 def correspondence(ctx):
     nix, _ = _nix()
     corpus = core.load_corpus(PROP)
-    cases = [c for c in corpus if isinstance(c, dict)] + gen_cases(ctx)
+    cases = [dict(c, lib=lib_version()) for c in corpus if isinstance(c, dict)] + gen_cases(ctx)
     disagreements = []
     evaluations = 0
     dist = {"steps": {}, "shape": {}, "step_kinds": {}, "histories": 0, "states": 0, "errors": 0}
@@ -995,6 +1045,7 @@ def correspondence(ctx):
             dist["step_kinds"][kd] = dist["step_kinds"].get(kd, 0) + 1
         dist["histories"] += info.get("histories", 0)
         dist["states"] += info.get("states", 0)
+        dist["stale_lists"] = dist.get("stale_lists", 0) + info.get("stale", 0)
         v = ".".join(map(str, c["spec"]["version"]))
         dist["shape"][v] = dist["shape"].get(v, 0) + 1
         if info.get("steps", 0) > 1:
@@ -1013,7 +1064,8 @@ def correspondence(ctx):
                     "per-value extras, mid=new properties + alias range dimensions, mixed, current, newer; ids "
                     "absent/valid/empty/junk/braced/hex32/short); per file the uninterrupted run twice, an "
                     "interrupted run + re-run for every step index k (sampled when > 14 steps in quick), and "
-                    "double-interruption histories; every state abstracted with h5py and compared with the model "
+                    "double-interruption histories, and two task lists collected up front with the stale one processed after "
+                    "the (interrupted / complete) first; every state abstracted with h5py and compared with the model "
                     "(steps, error class, return value, version, id, properties per group in container order, "
                     "arrays/dimensions/links, digest of everything else); model views vs nixio API before (old-layout "
                     "readers) and after; is_uuid texts. non-trivial = file with more than one step",
